@@ -24,7 +24,7 @@ COMPONENTS = {"real": ["smpl_extract.actions (cue path), cuesheet, cdda/image, u
                        "stdout captured", "output in a /dev/shm sandbox behind an audit hook"]}
 ASSUMPTIONS = ["titles are safe unique words (hostile titles are C06's)", "all tracks AUDIO, first indices strictly increasing and inside the bin",
                "what simulation adds over plain generation here is only the torn-tail lengths, the block-size knob and the seam observation"]
-EXPECTED_PROBES = ["minutes_gt_0", "seconds_gt_0", "tail_not_multiple_of_4", "tail_not_multiple_of_2352", "multi_index", "untitled", "tracks_ge_3", "bin_in_subdirectory", "keywords_not_upper_case", "knob_not_default",
+EXPECTED_PROBES = ["minutes_gt_0", "seconds_gt_0", "tail_not_multiple_of_4", "tail_not_multiple_of_2352", "multi_index", "untitled", "tracks_ge_3", "bin_in_subdirectory", "keywords_not_upper_case", "dotted_titles", "knob_not_default",
                    "empty_last_track", "cli_crosscheck", "first_track_not_at_zero", "exported_twice", "keyword_like_title", "lr_titles", "cue_no_final_newline", "cue_crlf", "cue_larger_than_8k"]
 SHRINK = {"max_attempts": 300, "max_seconds": 40.0, "simple_values": {"block": [4096]}}
 KNOBS = [4, 8, 64, 510, 4096, 4096, 4096, 8192, 65536]
@@ -70,6 +70,11 @@ def gen_cdda_model(rng: random.Random, *, titles: str = "safe") -> dict:
         a, b = rng.sample(range(nt), 2)
         stem, sep = safe_name(rng, used, 10), rng.choice([" ", "-", " - "])
         tracks[a]["title"], tracks[b]["title"] = stem + sep + "L", stem + sep + "R"
+    if nt >= 2 and rng.random() < 0.12:
+        # titles keep their periods: "Suite No.1" and "Suite No.2" are two different files
+        a, b = rng.sample(range(nt), 2)
+        stem = safe_name(rng, used, 10) + rng.choice([" No.", ".", " v1.", ".part"])
+        tracks[a]["title"], tracks[b]["title"] = stem + "1", stem + "2"
     last = C.first_sector(tracks[-1])
     tail = weighted(rng, [(0, 2), (1, 1), (2, 1), (3, 1), (4, 1), (5, 1), (2351, 1), (2352, 2), (2353, 1), (rng.randint(0, 4 * 2352), 4)])
     # the FILE entry is a path relative to the cue sheet; keywords are case-insensitive
@@ -154,6 +159,8 @@ def run(sc: dict) -> RunResult:
         res.probes["keyword_like_title"] += 1
     if any(x.endswith((" L", "-L")) for x in ts) and any(x.endswith((" R", "-R")) for x in ts):
         res.probes["lr_titles"] += 1
+    if sum(1 for x in ts if "." in x) >= 2:
+        res.probes["dotted_titles"] += 1
     if len(C.cue_text(model)) > 8192:
         res.probes["cue_larger_than_8k"] += 1
     if "/" in model["bin_name"]:
